@@ -43,12 +43,19 @@ fn budget_ms() -> u64 {
 fn parse_with_recovery(b: &Built, toks: &[u32], costs: &[u8], o: &mut String) {
     let lexer = ReplayLexer::new(toks.to_vec());
     let t0 = std::time::Instant::now();
+    // inserted lexemes must be zero-length and faulty, real ones neither
+    let odd = std::cell::Cell::new(0usize);
     let r = catch(std::panic::AssertUnwindSafe(|| {
         let cf = |t: cfgrammar::TIdx<u32>| -> u8 { costs[usize::from(t)] };
         let pb = RTParserBuilder::<u32, LT>::new(&b.grm, &b.st).recoverer(RecoveryKind::CPCTPlus).term_costs(&cf);
         pb.parse_map(
             &lexer,
-            &|lexeme: Lx| Tree::Term(lexeme.tok_id(), lexeme.span().start(), lexeme.span().len(), lexeme.faulty()),
+            &|lexeme: Lx| {
+                if lexeme.faulty() != (lexeme.span().len() == 0) {
+                    odd.set(odd.get() + 1);
+                }
+                Tree::Term(lexeme.tok_id(), lexeme.span().start(), lexeme.span().len(), lexeme.faulty())
+            },
             &|ridx, nodes| Tree::Nonterm(u32::from(ridx), nodes),
         )
     }));
@@ -88,6 +95,7 @@ fn parse_with_recovery(b: &Built, toks: &[u32], costs: &[u8], o: &mut String) {
             }
         }
     }
+    write!(o, " # ZL {}", odd.get()).unwrap();
     write!(o, " # TM {}", ms).unwrap();
 }
 
